@@ -235,6 +235,40 @@ def run(res, tier, build_ok):
                       lambda: cls(opx, **copy.deepcopy(kw)), exp, PLL["xcopy"],
                       {"command": "xcopy%d" % (5 if five else 4), "kwargs": str(kw)[:1200]},
                       "mar xcopy%d %s" % (5 if five else 4, formats.to_text(model)))
+        # ---- read-modify-write: the dictionary decoded from a MODE SENSE answer that carries block descriptors, handed to
+        #      MODE SELECT.  Whatever the library does with the block descriptors, the list must be walkable: BLOCK
+        #      DESCRIPTOR LENGTH equals the block-descriptor bytes that follow the header, then the page, then nothing.
+        MSE6, MSE10 = m("scsi_cdb_modesense6").ModeSense6, m("scsi_cdb_modesense10").ModeSense10
+        for i in range(40 * scale):
+            for ten in (False, True):
+                resp, _e = g.modesense(ten)
+                hl = 8 if ten else 4
+                bdl_in = int.from_bytes(resp[6:8], "big") if ten else resp[3]
+                page = bytes(resp[hl + bdl_in:])
+                kind = "modeselect10" if ten else "modeselect6"
+                replay = {"command": kind, "route": "decode MODE SENSE data, hand the dictionary to MODE SELECT", "modesense_data": bytes(resp).hex()}
+                res.case(("rmw", kind, bytes(resp)), None)
+                res.count("MODE SENSE answer -> MODE SELECT list")
+                try:
+                    parsed = (MSE10 if ten else MSE6).unmarshall_datain(bytearray(resp))
+                    cmd = (MS10 if ten else MS6)(spc.MODE_SELECT_10 if ten else spc.MODE_SELECT_6, parsed)
+                except Exception as e:
+                    res.violation("cmd=%s rmw raises=%s" % (kind, type(e).__name__),
+                                  "MODE SELECT(%d) cannot be constructed from a decoded MODE SENSE answer: %s" % (10 if ten else 6, type(e).__name__), replay)
+                    continue
+                out = bytes(cmd.dataout)
+                replay["dataout"] = out.hex()
+                bdl = int.from_bytes(out[6:8], "big") if ten else out[3]
+                by, w = PLL[kind]
+                bad = None
+                if int.from_bytes(bytes(cmd.cdb)[by:by + w], "big") != len(out):
+                    bad = "PARAMETER LIST LENGTH in the CDB is %d, the list has %d bytes" % (int.from_bytes(bytes(cmd.cdb)[by:by + w], "big"), len(out))
+                elif len(out) != hl + bdl + len(page):
+                    bad = "BLOCK DESCRIPTOR LENGTH is %d but %d bytes follow the header where %d + the %d-byte page are announced" % (bdl, len(out) - hl, bdl, len(page))
+                elif out[hl + bdl:] != page:
+                    bad = "the mode page does not stand where the length fields say it starts (byte %d)" % (hl + bdl)
+                if bad:
+                    res.violation("cmd=%s rmw lengths" % kind, "MODE SELECT(%d) built from a decoded MODE SENSE answer: %s" % (10 if ten else 6, bad), replay)
         # ---- honest lengths for iSCSI TransportIDs of every name length (1..40), incl. the short ones the byte-for-byte
         #      oracle above leaves out: whatever padding is chosen, every length field must equal what follows it
         op = spc.PERSISTENT_RESERVE_OUT
